@@ -106,7 +106,7 @@ func getPKI() *pkiT {
 
 type tlsaRec struct {
 	Usage, Sel, MT uint8
-	Data           string // "leaf" | "inter" | "stranger" | "strangerCA"
+	Data           string // "leaf" | "inter" | "stranger" | "strangerCA", optionally + "/other-selector" | "/other-digest" (c05_rrset_test.go)
 }
 
 func (r tlsaRec) String() string { return fmt.Sprintf("%d %d %d <%s>", r.Usage, r.Sel, r.MT, r.Data) }
@@ -127,6 +127,10 @@ type mxFacts struct {
 	TLSA     string `json:"tlsa"` // absent | nodata | servfail | records
 	TLSARecs []tlsaRec
 	TLSAAD   bool `json:"tlsa_ad"`
+	// RRShape: TLSARecs is a directed RRset of this interaction shape
+	// (c05_rrset_test.go); "" = independently drawn records.
+	RRShape   string `json:"tlsa_rrset_shape,omitempty"`
+	shapeRecs []tlsaRec
 	// CNAME: the MX host name is an alias (same DNSSEC status as the address
 	// records) of canonName(); the TLSA RRset is then published at the canonical
 	// name only and nothing exists at _25._tcp.<MX name> (RFC 7672 2.2.2: the
@@ -330,6 +334,10 @@ func genMX(p *prng.R, dom, i int, pref uint16) mxFacts {
 	sub := p.Uint64()
 	m.CNAME = prng.New(sub, uint64(dom*2+i), "c05-mx-cname").Chance(22, 100)
 	m.Stages = genStages(prng.New(sub, uint64(dom*2+i), "c05-mx-stages"), m.StartTLS)
+	// one in three published RRsets is a directed interaction shape (own stream)
+	if rp := prng.New(sub, uint64(dom*2+i), "c05-mx-rrset"); m.TLSA == "records" && rp.Chance(1, 3) {
+		m.setRRset(rp, rp.Intn(len(rrsetShapes)))
+	}
 	return m
 }
 
@@ -431,8 +439,15 @@ func (m *mxFacts) recData(r tlsaRec) string {
 	if mt > 2 {
 		mt = 1
 	}
+	which, twist := untwist(r.Data)
+	switch twist {
+	case twistSelector: // data computed over the other object than the selector says
+		sel = 1 - sel
+	case twistDigest: // data computed with another matching type than published
+		mt = map[uint8]uint8{0: 1, 1: 2, 2: 1}[mt]
+	}
 	var c *x509.Certificate
-	switch r.Data {
+	switch which {
 	case "leaf":
 		c = m.chain()[0]
 	case "inter":
@@ -700,6 +715,7 @@ func retryBind(f func() error) error {
 
 func buildWorld(sc *scenario) (*world, error) {
 	p := getPKI()
+	sc.normaliseShapes()
 	w := &world{sc: sc}
 	zones := map[string]mockdns.Zone{}
 	byName := map[string]*smtpd.Server{}
@@ -1277,7 +1293,7 @@ func shapeOf(sc *scenario) string {
 			if m.TLSA == "records" {
 				au, da = m.daneVerdict()
 			}
-			fmt.Fprintf(&b, " | %s %s down=%v/%s rt=%v disc=%s usable=%v match=%v sts=%v dot=%d st=%s flaky=%d", m.StartTLS, m.Cert, m.Down, m.Greet, m.ReqTLS, m.tlsaDiscovery(), au, da, m.STSMatch, m.DotCode, m.Stages.String(), m.FlakyFirst)
+			fmt.Fprintf(&b, " | %s %s down=%v/%s rt=%v disc=%s usable=%v match=%v rr=%s sts=%v dot=%d st=%s flaky=%d", m.StartTLS, m.Cert, m.Down, m.Greet, m.ReqTLS, m.tlsaDiscovery(), au, da, m.RRShape, m.STSMatch, m.DotCode, m.Stages.String(), m.FlakyFirst)
 		}
 	}
 	for _, f := range sc.Msgs {
@@ -1690,6 +1706,7 @@ func TestVerif(t *testing.T) {
 			// ---- rule 1: content only over allowed connections
 			judgeDataEvents(r, c, sc, evs, func(msgFlags) string { return multi }, witness)
 			stageCounters(r, w.sc, transcripts)
+			rrsetCounters(func(k string, n int64) { r.Count(k, n) }, sc, evs)
 
 			// ---- rule 2: discovery failure => deferred (temporary), never permanent
 			for j, f := range sc.Msgs {
@@ -1782,6 +1799,12 @@ func TestVerif(t *testing.T) {
 	for k := 0; k < nt; k++ {
 		run(groupTeardown+k, fmt.Sprintf("teardown-%d", k), func() *scenario {
 			return teardownScenario(k, prng.New(r.Seed(), uint64(k), "c05-teardown"))
+		})
+	}
+	nr := r.N(896, 13440)
+	for k := 0; k < nr; k++ {
+		run(groupRRset+k, fmt.Sprintf("rrset-%d-%d", k%len(rrsetShapes), k), func() *scenario {
+			return rrsetScenario(k, prng.New(r.Seed(), uint64(k), "c05-rrset"))
 		})
 	}
 	queueGroup(t, r)
